@@ -21,6 +21,18 @@ CLAIMS = {
  "C04": ("model_checking", "5 C04", "gram",
          "Cost flag on/off x one/all parses x cost menus x translation menus over the bounded families: denoted set = argmin of the reference translation costs, cost fields sum up, root cost = minimum; with the tracking parse_free and with NULL. Missing minimal translations that are consequences of D23/D24 are attributed to those findings.",
          TECH + " (engine gram, cost menus)"),
+ "C06": ("model_checking", "5 C06", "gram",
+         "All non-sentences of strict-accepted grammars of the families (with and without error rules) x lookahead x recovery on/off x recovery_match 1..5: the first reported error token equals the first non-viable prefix computed by the reference for G'' (error as ordinary terminal, implicit rule), recovery-off arguments, and for every call the range/attribute/monotonicity relations.",
+         TECH + " (engine gram, viable-prefix reference)"),
+ "C07": ("model_checking", "5 C07", "gram",
+         "Every token string up to length n for every grammar of the error families with recovery on: returns 0, well-formed non-NULL tree, callbacks iff non-sentence, every denoted tree is a translation of some repaired input whose replaced segments total the reported ignored count (all repairs enumerated, up to n+1 segments), and the unique-segment rule. TERM attributes of recovered trees are compared by code only (see DESIGN.md, D20).",
+         TECH + " (engine gram, repair enumeration)"),
+ "C08": ("model_checking", "5 C08", "gram",
+         "First syntax error of every non-sentence of the error families x recovery_match 1..5 x lookahead: the reported ignored count is compared with the minimum over all simple recoveries (back to p where error is expected, skip to q, match m tokens or everything up to end of input) computed by the reference from viable prefixes.",
+         TECH + " (engine gram, simple-recovery bound)"),
+ "C13": ("model_checking", "5 C13", "gram",
+         "Every parse of the bounded space on a fresh object under a tracking allocator whose blocks are never recycled inside a case: parse_free only gets live blocks of the same parse, at most once; everything reachable lies in live blocks; the tree is unchanged after yaep_free_grammar; yaep_free_tree releases every block exactly once and calls the terminal callback once per TERM; definition inputs are freed right after the defining call (ASan job).",
+         TECH + " (engine gram, tracking allocator monitor)"),
  "C10": ("model_checking", "5 C10", "def",
          "Full product of small terminal lists x rule lists (names incl. reserved ones, codes incl. negative/repeated, 17 translation/cost forms) x strict flag; rc = 0 iff the reference WF model finds no documented defect, otherwise rc names a defect that is present; error state, refusal to parse and a following good definition are checked after every rejection.",
          "bounded exhaustive enumeration of callback-level descriptions on the real code against a reference well-formedness model (engine def)"),
